@@ -30,13 +30,18 @@ class O:
 
 
 def go(layers, seed):
+    import io
+    from contextlib import redirect_stdout
+    from zope.testrunner.options import get_options
+
     class R:
         pass
     r = R()
-    r.options = O()
-    r.options.shuffle = True
-    r.options.shuffle_seed = seed
-    r.options.original_testrunner_args = ['prog', '--shuffle']
+    argv = ['prog', '--shuffle'] + ([] if seed is None else ['--shuffle-seed=%d' % seed])
+    with redirect_stdout(io.StringIO()):
+        r.options = get_options(argv, [])
+    r.options.resume_layer = None
+    r.options.resume_number = None
     r.options.output = Out()
     r.tests_by_layer_name = {n: unittest.TestSuite([T(i) for i in t]) for n, t in layers}
     f = Shuffle(r)
